@@ -11,15 +11,16 @@ suite=$(make -j16 check 2>&1 | grep -E "^# (PASS|FAIL|ERROR):" | tr -d ' \n')
 origwt=$(grep -o '/tmp/wt_C[0-9]*' $src/demo.c | head -1)
 san=""; grep -q "fsanitize=address" $src/demo.c && san="-fsanitize=address,undefined"
 grep -q "fsanitize-recover=address" $src/demo.c && san="$san -fsanitize-recover=address"
-cmd="gcc -g $san -I$wt/src -I$wt demo.c $wt/src/.libs/libvna.a -lyaml -lm -o demo && ./demo"
-mkdir -p $wt/_d && cp $src/demo.* $wt/_d/ 2>/dev/null; cd $wt/_d
+wrap=$(grep -o -m1 -- "-Wl,--wrap=[A-Za-z0-9_,=-]*" $src/demo.c | head -1)
+cmd="gcc -g $san -I$wt/src -I$wt demo.c $wt/src/.libs/libvna.a -lyaml -lm $wrap -o demo && ./demo"
+mkdir -p $wt/_d $wt/_seed/$(basename $src) && cp -r $src/* $wt/_d/ 2>/dev/null; cp -r $src/* $wt/_seed/$(basename $src)/ 2>/dev/null; cd $wt/_d
 sed -i "s#$origwt#$wt#g" demo.c
 ( eval "$cmd" ) >with.log 2>&1; rc_with=$?
 cd $wt && git checkout -- src && make -j16 >/dev/null 2>&1
 cd $wt/_d && ( eval "$cmd" ) >without.log 2>&1; rc_without=$?
 echo "$id: suite[$suite] demo_with_patch_rc=$rc_with demo_without_rc=$rc_without"
 if [[ "$suite" == *"PASS:25"*"FAIL:0"* && $rc_with -ne 0 && $rc_without -eq 0 ]]; then
-  mkdir -p /verif/seeded/$id && cp $src/patch.diff $src/demo.c $src/meta.json /verif/seeded/$id/
+  mkdir -p /verif/seeded/$id && cp $src/patch.diff $src/demo.c $src/meta.json /verif/seeded/$id/; for f in $src/*; do case $f in *.vnacal|*.s2p|*.npd|*.sh|*.txt|*.h) cp $f /verif/seeded/$id/;; esac; done
   python3 - <<PY
 import json
 p='/verif/seeded/$id/meta.json'; m=json.load(open(p))
